@@ -67,11 +67,47 @@ def judge_walk(case, ref, log, status, hang, world=None, exc=None):
             raise Violation("returns", f"walk returned while worker processes were still running; case {desc}")
 
 
+def judge_faulty_walk(case, ref, log, fail):
+    """one callback raised: whether and how the walk reports that is C19's subject; what C01 says about the callbacks that DID
+    start holds all the same - never twice, only for live non-leaf tiles, and only after every live child's callback COMPLETED (the
+    failed one never did, so none of its ancestors may start)"""
+    desc = {k: v for k, v in case.items() if k != "sched"}
+    desc["callback_that_raised"] = list(fail)
+    starts = [e[1] for e in log if e[0] == "S"]
+    dup = sorted(p for p, n in Counter(starts).items() if n > 1)
+    if dup:
+        raise Violation("exactly-once", f"callback ran more than once for {dup[:4]}; case {desc}")
+    extra = sorted(set(starts) - ref.ops)[:4]
+    if extra:
+        raise Violation("exactly-once", f"callback ran for {extra}, not live non-leaf tiles; case {desc}")
+    ended = set()
+    for e in log:
+        if e[0] == "E":
+            ended.add(e[1])
+        else:
+            for ch in rp.children(e[1]):
+                if ch in ref.ops and ch not in ended:
+                    raise Violation("children-first", f"callback for {e[1]} started although the callback of its live child {ch} {'raised' if ch == tuple(fail) else 'had not completed'}; case {desc}")
+
+
 def exec_walk(case):
     ref = scen.ref_of(case)
     k = case.get("k", 1)
     classes = [case["kind"], f"depth{case['depth']}", f"k{k}"]
     info = {"ops": len(ref.ops)}
+    if case.get("fail_idx") is not None and k >= 2:
+        order = [p for p in ref.order if p in ref.ops]
+        if len(order) >= 2:
+            from ..simsched import SimWorld
+
+            fail = order[case["fail_idx"] % (len(order) - 1)]  # never the last one (the apex): it has no ancestor to release
+            w = SimWorld(case.get("sched"))
+            rec = scen.Recorder(w, fail_at=fail, fail_exc=RuntimeError)
+            w, res = scen.run_sim(lambda: scen.make_pyramid(case).walk(rec.walk_cb, parallel=k), None, world=w)
+            if res["status"] == "raised" and isinstance(res["exc"], SimUnsupported):
+                raise res["exc"]
+            judge_faulty_walk(case, ref, rec.log, fail)
+            return Outcome(classes=classes + ["one-callback-raises"], nontrivial=True, info=info)
     if k == 1:
         rec = scen.Recorder()
         try:
@@ -207,8 +243,12 @@ def strat_history(draw, tier):
     return {"walks": walks}
 
 
-def strat_walk(tier):
-    return scen.pyramid_cases(4 if tier == "quick" else 6, deep_one_in=10)
+@st.composite
+def strat_walk(draw, tier):
+    case = draw(scen.pyramid_cases(4 if tier == "quick" else 6, deep_one_in=10))
+    if case.get("k", 1) >= 2 and draw(st.integers(0, 6)) == 0:
+        case["fail_idx"] = draw(st.integers(0, 400))  # one callback raises: the ordering clause must survive that
+    return case
 
 
 # exhaustive sub-space: every canonical filter of a depth-2 pyramid, k=2, 4 adversarial schedule families
